@@ -7,7 +7,7 @@ from .u6_root import prelude_types
 from .u9_dispatch import emit_json_struct
 
 NAME = 'u10_tail'
-PROPS = ['C02', 'C01', 'C05', 'C04', 'C06', 'C07']
+PROPS = ['C02', 'C01', 'C05', 'C04', 'C06', 'C07', 'C13']
 D = 'src/decoder.rs'
 T = 'src/types.rs'
 J = 'src/jsontypes.rs'
